@@ -67,6 +67,12 @@ inline InputRaw::InputRaw(const RSInputParam& input_param)
 
 inline void InputRaw::feedPacket(const uint8_t* data, size_t size)
 {
+  // drop what cannot hold the user/tail layers plus a payload, and what does not fit the packet buffer.
+  if ((size <= (raw_offset_ + raw_tail_)) || ((size - raw_offset_ - raw_tail_) > pkt_buf_len_))
+  {
+    return;
+  }
+
   std::shared_ptr<Buffer> pkt = cb_get_pkt_(pkt_buf_len_);
   memcpy(pkt->data(), data + raw_offset_, size - raw_offset_ - raw_tail_);
   pkt->setData(0, size - raw_offset_ - raw_tail_);
